@@ -49,6 +49,11 @@ CLAIMED = {
    note="Trusted: TLC, PipelineObjects.tla, the driver, process start as 'fresh' reference. Probes share condition strings, detection names and field names with earlier rules (parse cache, tracking sets).",
    technique="TLA+ mechanism model of pipeline ownership/state model-checked with TLC (with negative control); TLC-generated operation histories replayed into real objects; TLC judges probe results against a fresh-interpreter oracle and the model's abstract result",
    ref="6/C15"),
+ "C14": dict(level=MC,
+   text="TLC model-checks the Ideal composition algebra spec/PipelineCompose.tla (MC_PipelineCompose: '+' reduced one step per transition in ANY order over every permutation of a 5-pipeline pool - result is the concatenation in operand order, later vars override, empty pipeline is identity, the resolver's (priority, name) order is permutation-free) and the ownership Mechanism (MC_PipelineObjects). Conformance: TLC enumerates operations (all operand sequences x all bracketings of '+', all resolver argument orders, backend/user/format triples, reuse histories) together with the reference definition the spec demands; the driver performs them on real objects and converts two probes; TLC checks that the result equals ONE pipeline built from the reference definition, that the reference output is the spec's stage composition (postprocessing per query in item order, finalizers once) of the raw queries, merged vars, applied flags and the pipeline's own state after a direct apply.",
+   note="Trusted: TLC, PipelineCompose.tla, the item/postprocessing/finalizer text library shared by driver and judge. Resolver ties: names are unique in a resolver, so (priority, name) is total; 'stable' is vacuous there.",
+   technique="TLA+ composition algebra and ownership mechanism model-checked with TLC; TLC-generated operations replayed into real pipeline objects; TLC judges outputs against the spec's reference definition and stage semantics",
+   ref="6/C14"),
 }
 REASON_NOT_BUILT = "check not built yet in this round (see DESIGN.md section 6 for the planned TLA+ model); not claimed until its judge is sound"
 ALL = [f"C{i:02d}" for i in range(1, 21)]
